@@ -179,7 +179,8 @@ TrReportBuilt ==
                       <<Len(Ev.results) = Len(queue), "ReportBuilt:result-count">>,
                       <<Ev.results = BuildReport, "ReportBuilt:differs-from-what-the-run-did">>,
                       <<Ev.schemaOk, "ReportBuilt:schema">>,
-                      <<Ev.shapeOk, "ReportBuilt:shape">> >>))
+                      <<Ev.shapeOk, "ReportBuilt:shape">>,
+                      <<Ev.metaOk, "ReportBuilt:run-section-does-not-describe-this-invocation">> >>))
 
 TrReportWritten ==
   /\ IsEv("ReportWritten")
